@@ -323,7 +323,7 @@ theorem goEq_eq_seqEq {env : Env} (hf : env.flagsOk = true) {E : Ty} {xs : Val} 
     (hc : canEqual env E = true) (hx : allHaveType env E xs = true) :
     goEq xs ys = Spec.seqEq env E xs ys := (goEqOK hf xs).seq E ys hc hx
 
-/-! ## Go `==` is a partial equivalence on well-typed values of a comparable type -/
+/-! ## Go `==` is symmetric and transitive on well-typed values of a comparable type -/
 
 theorem goEq_basic_symm {b : Basic} {x y : Val} (hx : basicHasType b x = true)
     (hy : basicHasType b y = true) : goEq x y = goEq y x := by
@@ -1143,25 +1143,711 @@ theorem valueAt_iff {env : Env} {K V : Ty} {k v : Val} :
     | _ => simp [Val.isEntrySpine] at hs
   | _ => intro hs; simp [Val.isEntrySpine] at hs
 
-/-- the keys of a `keysDistinct` spine are pairwise different under `==` (earlier vs later) -/
-theorem keyFresh_mem {k k' w : Val} : ∀ s : Val, keyFresh k s = true → .pair k' w ∈ s.toList →
-    goEq k k' = false := by
+/-- a key that is fresh for a spine differs (under `==`) from every key of the spine -/
+theorem keyFresh_mem {k k' w : Val} : ∀ s : Val, s.isEntrySpine = true → keyFresh k s = true →
+    .pair k' w ∈ s.toList → goEq k k' = false := by
   intro s
   induction s with
   | scons hd tl _ ih =>
-    intro hfr h
-    simp only [Val.toList, List.mem_cons] at h
-    rcases h with rfl | h
-    · simp only [keyFresh, Bool.and_eq_true, Bool.not_eq_true'] at hfr; exact hfr.1
-    · cases hd with
-      | pair k2 w2 =>
-        simp only [keyFresh, Bool.and_eq_true] at hfr
-        exact ih hfr.2 h
-      | _ =>
-        -- `keyFresh` stops at a non-pair, but then the spine has no later pairs it cares about
-        simp only [keyFresh] at hfr
-        exact absurd h (by intro; exact nomatch_helper)
-  | _ => intro _ h; simp [Val.toList] at h
+    intro hs hfr h
+    cases hd with
+    | pair k2 w2 =>
+      simp only [keyFresh, Bool.and_eq_true, Bool.not_eq_true'] at hfr
+      simp only [Val.toList, List.mem_cons] at h
+      rcases h with h | h
+      · cases h; exact hfr.1
+      · exact ih (by simpa [Val.isEntrySpine] using hs) hfr.2 h
+    | _ => simp [Val.isEntrySpine] at hs
+  | _ => intro _ _ h; simp [Val.toList] at h
+
+/-- the keys of a `keysDistinct` spine are pairwise different under `==` (earlier vs later) -/
+theorem keysDistinct_pairwise : ∀ s : Val, s.isEntrySpine = true → keysDistinct s = true →
+    s.toList.Pairwise (fun e1 e2 => ∀ k1 v1 k2 v2, e1 = .pair k1 v1 → e2 = .pair k2 v2 →
+      goEq k1 k2 = false) := by
+  intro s
+  induction s with
+  | scons hd tl _ ih =>
+    intro hs hd'
+    cases hd with
+    | pair k v =>
+      have hs' : tl.isEntrySpine = true := by simpa [Val.isEntrySpine] using hs
+      simp only [keysDistinct, Bool.and_eq_true] at hd'
+      simp only [Val.toList, List.pairwise_cons]
+      refine ⟨?_, ih hs' hd'.2⟩
+      intro e2 he2 k1 v1 k2 v2 h1 h2
+      cases h1; subst h2
+      exact keyFresh_mem tl hs' hd'.1 he2
+    | _ => simp [Val.isEntrySpine] at hs
+  | _ => intro _ _; simp [Val.toList]
+
+/-- pigeonhole: a relation that is total from `xs` into `ys`, injective on `xs`, with `ys` no
+longer than `xs`, is onto `ys` -/
+theorem pigeon {α β : Type} (R : α → β → Prop) :
+    ∀ (xs : List α) (ys : List β), ys.length ≤ xs.length →
+      xs.Pairwise (fun a a' => ∀ b, R a b → R a' b → False) →
+      (∀ a ∈ xs, ∃ b ∈ ys, R a b) → ∀ b ∈ ys, ∃ a ∈ xs, R a b := by
+  intro xs
+  induction xs with
+  | nil =>
+    intro ys hl _ _ b hb
+    cases ys with
+    | nil => cases hb
+    | cons _ _ => simp at hl
+  | cons a r ih =>
+    intro ys hl hp hall b hb
+    rw [List.pairwise_cons] at hp
+    obtain ⟨b0, hb0, hR0⟩ := hall a (List.mem_cons_self ..)
+    obtain ⟨s, t, rfl⟩ := List.append_of_mem hb0
+    have hl' : (s ++ t).length ≤ r.length := by
+      simp only [List.length_append, List.length_cons] at hl ⊢; omega
+    have hall' : ∀ a' ∈ r, ∃ b ∈ s ++ t, R a' b := by
+      intro a' ha'
+      obtain ⟨b', hb', hR'⟩ := hall a' (List.mem_cons_of_mem _ ha')
+      have hne : b' ≠ b0 := fun e => hp.1 a' ha' b0 hR0 (e ▸ hR')
+      refine ⟨b', ?_, hR'⟩
+      simp only [List.mem_append, List.mem_cons] at hb' ⊢
+      rcases hb' with h | h | h
+      · exact Or.inl h
+      · exact absurd h hne
+      · exact Or.inr h
+    have IH := ih (s ++ t) hl' hp.2 hall'
+    simp only [List.mem_append, List.mem_cons] at hb
+    rcases hb with h | h | h
+    · obtain ⟨a', ha', hR'⟩ := IH b (List.mem_append_left _ h)
+      exact ⟨a', List.mem_cons_of_mem _ ha', hR'⟩
+    · exact ⟨a, List.mem_cons_self .., h ▸ hR0⟩
+    · obtain ⟨a', ha', hR'⟩ := IH b (List.mem_append_right _ h)
+      exact ⟨a', List.mem_cons_of_mem _ ha', hR'⟩
+
+/-! ## The specification is an equivalence on well-typed NaN-free values -/
+
+section SpecEquiv
+open Spec
+
+theorem leafEq_refl {b : Basic} {x : Val} (hx : basicHasType b x = true) (hn : nanFree x = true) :
+    leafEq x x = true := by
+  cases x <;> (try (cases b <;> simp [basicHasType] at hx; done)) <;>
+    simp only [leafEq, nanFree, Bool.and_eq_true, Bool.not_eq_true'] at hn ⊢
+  · exact beq_self_eq_true _
+  · exact beq_self_eq_true _
+  · exact fltEq_refl _ _ hn
+  · exact ⟨fltEq_refl _ _ hn.1, fltEq_refl _ _ hn.2⟩
+  · exact beq_self_eq_true _
+
+theorem leafEq_eq_goEq {b : Basic} {x : Val} (h : basicHasType b x = true) (y : Val) :
+    leafEq x y = goEq x y := (goEq_eq_leafEq h y).symm
+
+/-- reflexivity, in the three readings -/
+structure ReflOK (env : Env) (x : Val) : Prop where
+  val : ∀ T, hasType env T x = true → nanFree x = true → structEq env T x x = true
+  seq : ∀ E, allHaveType env E x = true → nanFree x = true → seqEq env E x x = true
+  flds : ∀ fs, fieldsHaveType env fs x = true → nanFree x = true → fieldsEq env fs x x = true
+
+theorem reflOK {env : Env} (x : Val) : ReflOK env x := by
+  induction x using Val.strongInduction with
+  | step x ih =>
+  refine ⟨?_, ?_, ?_⟩
+  · intro T hx hn
+    cases hU : env.under T with
+    | basic b =>
+      rw [structEq_basic hU]; exact leafEq_refl (by rwa [hasType_basic hU] at hx) hn
+    | ptr R =>
+      rw [structEq_ptr hU]
+      rcases hasType_ptr_inv hU hx with rfl | ⟨a, v, rfl, hv⟩
+      · rfl
+      · exact (ih v (by simp <;> omega)).val R hv (by simpa [nanFree] using hn)
+    | slice E =>
+      rw [structEq_slice hU]
+      rcases hasType_slice_inv hU hx with rfl | ⟨a, sp, xs, rfl, hxs⟩
+      · rfl
+      · exact (ih xs (by simp <;> omega)).seq E hxs (by simpa [nanFree] using hn)
+    | array n E =>
+      rw [structEq_array hU]
+      obtain ⟨xs, rfl, -, hxs⟩ := hasType_array_inv hU hx
+      exact (ih xs (by simp <;> omega)).seq E hxs (by simpa [nanFree] using hn)
+    | struct fs =>
+      rw [structEq_struct hU]
+      obtain ⟨xs, rfl, hxs⟩ := hasType_struct_inv hU hx
+      exact (ih xs (by simp <;> omega)).flds fs hxs (by simpa [nanFree] using hn)
+    | map K V =>
+      rw [structEq_map hU]
+      rcases hasType_map_inv hU hx with rfl | ⟨a, xs, rfl, -, hxs, -⟩
+      · rfl
+      · have hsp := entriesHaveType_isEntrySpine xs hxs
+        have hn' : nanFree xs = true := by simpa [nanFree] using hn
+        simp only [beq_self_eq_true, Bool.true_and]
+        rw [entriesIn_iff xs hsp]
+        intro k v hm
+        rw [valueAt_iff xs hsp]
+        have hsz := sizeOf_lt_of_mem_toList xs hm
+        have ht := entriesHaveType_mem xs hxs hm
+        have hnkv := nanFree_mem xs hn' hm
+        simp only [nanFree, Bool.and_eq_true] at hnkv
+        have hk : sizeOf k < sizeOf (Val.map a xs) := by simp at hsz ⊢; omega
+        have hv : sizeOf v < sizeOf (Val.map a xs) := by simp at hsz ⊢; omega
+        exact ⟨k, v, hm, (ih k hk).val K ht.1 hnkv.1, (ih v hv).val V ht.2 hnkv.2⟩
+    | _ => rw [hasType_bad (by rw [hU])] at hx; cases hx
+  · intro E hx hn
+    rcases allHaveType_inv hx with rfl | ⟨a, r, rfl, ha, hr⟩
+    · rw [seqEq]
+    · simp only [nanFree, Bool.and_eq_true] at hn
+      rw [seqEq, (ih a (by simp <;> omega)).val E ha hn.1, (ih r (by simp <;> omega)).seq E hr hn.2]
+      rfl
+  · intro fs hx hn
+    rcases fieldsHaveType_inv hx with ⟨rfl, rfl⟩ | ⟨F, rest, a, r, rfl, rfl, ha, hr⟩
+    · rw [fieldsEq]
+    · simp only [nanFree, Bool.and_eq_true] at hn
+      rw [fieldsEq, (ih a (by simp <;> omega)).val F ha hn.1,
+        (ih r (by simp <;> omega)).flds rest hr hn.2]
+      rfl
+
+/-- one direction of symmetry for maps: if every entry of `xs` has a partner in `ys`, the keys of
+`xs` are distinct and `ys` is not longer, then every entry of `ys` has a partner in `xs` -/
+theorem entriesIn_flip {env : Env} (hf : env.flagsOk = true) {K V : Ty} {xs ys : Val}
+    (hK : canEqual env K = true)
+    (hxs : entriesHaveType env K V xs = true) (hys : entriesHaveType env K V ys = true)
+    (hd : keysDistinct xs = true) (hlen : ys.slen ≤ xs.slen)
+    (hsym : ∀ k v k' w, .pair k v ∈ xs.toList → .pair k' w ∈ ys.toList →
+      structEq env K k k' = true → structEq env V v w = true →
+      structEq env K k' k = true ∧ structEq env V w v = true)
+    (h : entriesIn env K V xs ys = true) : entriesIn env K V ys xs = true := by
+  have hsx := entriesHaveType_isEntrySpine xs hxs
+  have hsy := entriesHaveType_isEntrySpine ys hys
+  let R : Val → Val → Prop := fun e1 e2 => ∃ k v k' w, e1 = .pair k v ∧ e2 = .pair k' w ∧
+    hasType env K k' = true ∧ structEq env K k k' = true ∧ structEq env V v w = true
+  have hpw := keysDistinct_pairwise xs hsx hd
+  have hinj : xs.toList.Pairwise (fun a a' => ∀ b, R a b → R a' b → False) := by
+    refine List.Pairwise.imp_of_mem ?_ hpw
+    intro e1 e2 he1 he2 hne b ⟨k1, v1, k', w, h1, hb, hk't, hk1, _⟩
+      ⟨k2, v2, k'', w', h2, hb', _, hk2, _⟩
+    subst h1 h2 hb
+    cases hb'
+    obtain ⟨hk1t, _⟩ := entriesHaveType_mem xs hxs he1
+    obtain ⟨hk2t, _⟩ := entriesHaveType_mem xs hxs he2
+    rw [← goEq_eq_structEq hf _ hK hk1t] at hk1
+    rw [← goEq_eq_structEq hf _ hK hk2t] at hk2
+    have hne' := hne k1 v1 k2 v2 rfl rfl
+    have : goEq k1 k2 = true :=
+      goEq_trans hf hK hk1t hk't hk1 (by rw [goEq_symm hf hK hk't hk2t]; exact hk2)
+    rw [hne'] at this; cases this
+  have hall : ∀ a ∈ xs.toList, ∃ b ∈ ys.toList, R a b := by
+    intro a ha
+    obtain ⟨k, v, rfl⟩ := isEntrySpine_mem xs hsx ha
+    obtain ⟨k', w, hm, h1, h2⟩ := (valueAt_iff ys hsy).mp ((entriesIn_iff xs hsx).mp h k v ha)
+    exact ⟨_, hm, k, v, k', w, rfl, rfl, (entriesHaveType_mem ys hys hm).1, h1, h2⟩
+  have hlen' : ys.toList.length ≤ xs.toList.length := by simpa using hlen
+  have honto := pigeon R xs.toList ys.toList hlen' hinj hall
+  rw [entriesIn_iff ys hsy]
+  intro k' w hm
+  rw [valueAt_iff xs hsx]
+  obtain ⟨a, ha, k, v, k2, w2, rfl, hb, -, h1, h2⟩ := honto _ hm
+  cases hb
+  obtain ⟨h1', h2'⟩ := hsym k v k' w ha hm h1 h2
+  exact ⟨k, v, ha, h1', h2'⟩
+
+/-- symmetry, in the three readings -/
+structure SymmOK (env : Env) (x : Val) : Prop where
+  val : ∀ T y, hasType env T x = true → hasType env T y = true →
+    structEq env T x y = structEq env T y x
+  seq : ∀ E ys, allHaveType env E x = true → allHaveType env E ys = true →
+    seqEq env E x ys = seqEq env E ys x
+  flds : ∀ fs ys, fieldsHaveType env fs x = true → fieldsHaveType env fs ys = true →
+    fieldsEq env fs x ys = fieldsEq env fs ys x
+
+theorem symmOK {env : Env} (hf : env.flagsOk = true) (x : Val) : SymmOK env x := by
+  induction x using Val.strongInduction with
+  | step x ih =>
+  refine ⟨?_, ?_, ?_⟩
+  · intro T y hx hy
+    cases hU : env.under T with
+    | basic b =>
+      rw [hasType_basic hU] at hx hy
+      rw [structEq_basic hU, structEq_basic hU, leafEq_eq_goEq hx, leafEq_eq_goEq hy]
+      exact goEq_basic_symm hx hy
+    | ptr R =>
+      rw [structEq_ptr hU, structEq_ptr hU]
+      rcases hasType_ptr_inv hU hx with rfl | ⟨a, v, rfl, hv⟩ <;>
+        rcases hasType_ptr_inv hU hy with rfl | ⟨b, w, rfl, hw⟩ <;> try rfl
+      exact (ih v (by simp <;> omega)).val R w hv hw
+    | slice E =>
+      rw [structEq_slice hU, structEq_slice hU]
+      rcases hasType_slice_inv hU hx with rfl | ⟨a, sp, xs, rfl, hxs⟩ <;>
+        rcases hasType_slice_inv hU hy with rfl | ⟨b, sp', ys, rfl, hys⟩ <;> try rfl
+      exact (ih xs (by simp <;> omega)).seq E ys hxs hys
+    | array n E =>
+      rw [structEq_array hU, structEq_array hU]
+      obtain ⟨xs, rfl, -, hxs⟩ := hasType_array_inv hU hx
+      obtain ⟨ys, rfl, -, hys⟩ := hasType_array_inv hU hy
+      exact (ih xs (by simp <;> omega)).seq E ys hxs hys
+    | struct fs =>
+      rw [structEq_struct hU, structEq_struct hU]
+      obtain ⟨xs, rfl, hxs⟩ := hasType_struct_inv hU hx
+      obtain ⟨ys, rfl, hys⟩ := hasType_struct_inv hU hy
+      exact (ih xs (by simp <;> omega)).flds fs ys hxs hys
+    | map K V =>
+      rw [structEq_map hU, structEq_map hU]
+      rcases hasType_map_inv hU hx with rfl | ⟨a, xs, rfl, hK, hxs, hdx⟩ <;>
+        rcases hasType_map_inv hU hy with rfl | ⟨b, ys, rfl, -, hys, hdy⟩ <;> try rfl
+      simp only
+      by_cases hl : xs.slen = ys.slen
+      · have hb1 : (xs.slen == ys.slen) = true := by rw [hl]; exact beq_self_eq_true _
+        have hb2 : (ys.slen == xs.slen) = true := by rw [hl]; exact beq_self_eq_true _
+        rw [hb1, hb2, Bool.true_and, Bool.true_and]
+        have hsymm : ∀ k v k' w, .pair k v ∈ xs.toList → .pair k' w ∈ ys.toList →
+            structEq env K k k' = structEq env K k' k ∧ structEq env V v w = structEq env V w v := by
+          intro k v k' w hm hm'
+          have hsz := sizeOf_lt_of_mem_toList xs hm
+          have ht := entriesHaveType_mem xs hxs hm
+          have ht' := entriesHaveType_mem ys hys hm'
+          have hk : sizeOf k < sizeOf (Val.map a xs) := by simp at hsz ⊢; omega
+          have hv : sizeOf v < sizeOf (Val.map a xs) := by simp at hsz ⊢; omega
+          exact ⟨(ih k hk).val K k' ht.1 ht'.1, (ih v hv).val V w ht.2 ht'.2⟩
+        rw [Bool.eq_iff_iff]
+        constructor
+        · refine entriesIn_flip hf hK hxs hys hdx (by omega) ?_
+          intro k v k' w hm hm' h1 h2
+          obtain ⟨e1, e2⟩ := hsymm k v k' w hm hm'
+          exact ⟨e1 ▸ h1, e2 ▸ h2⟩
+        · refine entriesIn_flip hf hK hys hxs hdy (by omega) ?_
+          intro k' w k v hm' hm h1 h2
+          obtain ⟨e1, e2⟩ := hsymm k v k' w hm hm'
+          exact ⟨e1.symm ▸ h1, e2.symm ▸ h2⟩
+      · have hb1 : (xs.slen == ys.slen) = false := beq_eq_false_iff_ne.mpr hl
+        have hb2 : (ys.slen == xs.slen) = false := beq_eq_false_iff_ne.mpr (Ne.symm hl)
+        rw [hb1, hb2, Bool.false_and, Bool.false_and]
+    | _ => rw [hasType_bad (by rw [hU])] at hx; cases hx
+  · intro E ys hx hy
+    rcases allHaveType_inv hx with rfl | ⟨a, r, rfl, ha, hr⟩ <;>
+      rcases allHaveType_inv hy with rfl | ⟨b, s, rfl, hb, hs⟩ <;> try (simp only [seqEq])
+    rw [(ih a (by simp <;> omega)).val E b ha hb, (ih r (by simp <;> omega)).seq E s hr hs]
+  · intro fs ys hx hy
+    rcases fieldsHaveType_inv hx with ⟨rfl, rfl⟩ | ⟨F, rest, a, r, rfl, rfl, ha, hr⟩
+    · rcases fieldsHaveType_inv hy with ⟨-, rfl⟩ | ⟨_, _, _, _, h, _⟩
+      · rfl
+      · cases h
+    · rcases fieldsHaveType_inv hy with ⟨h, -⟩ | ⟨F', rest', b, s, h, rfl, hb, hs⟩
+      · cases h
+      · cases h
+        simp only [fieldsEq]
+        rw [(ih a (by simp <;> omega)).val F b ha hb, (ih r (by simp <;> omega)).flds rest s hr hs]
+
+/-- transitivity, in the three readings -/
+structure TransOK (env : Env) (x : Val) : Prop where
+  val : ∀ T y z, hasType env T x = true → hasType env T y = true → hasType env T z = true →
+    structEq env T x y = true → structEq env T y z = true → structEq env T x z = true
+  seq : ∀ E ys zs, allHaveType env E x = true → allHaveType env E ys = true →
+    allHaveType env E zs = true →
+    seqEq env E x ys = true → seqEq env E ys zs = true → seqEq env E x zs = true
+  flds : ∀ fs ys zs, fieldsHaveType env fs x = true → fieldsHaveType env fs ys = true →
+    fieldsHaveType env fs zs = true →
+    fieldsEq env fs x ys = true → fieldsEq env fs ys zs = true → fieldsEq env fs x zs = true
+
+theorem transOK {env : Env} (x : Val) : TransOK env x := by
+  induction x using Val.strongInduction with
+  | step x ih =>
+  refine ⟨?_, ?_, ?_⟩
+  · intro T y z hx hy hz h1 h2
+    cases hU : env.under T with
+    | basic b =>
+      rw [hasType_basic hU] at hx hy hz
+      rw [structEq_basic hU] at h1 h2 ⊢
+      rw [leafEq_eq_goEq hx] at h1 ⊢
+      rw [leafEq_eq_goEq hy] at h2
+      exact goEq_basic_trans hx hy h1 h2
+    | ptr R =>
+      rw [structEq_ptr hU] at h1 h2 ⊢
+      rcases hasType_ptr_inv hU hx with rfl | ⟨a, v, rfl, hv⟩ <;>
+        rcases hasType_ptr_inv hU hy with rfl | ⟨b, w, rfl, hw⟩ <;>
+        rcases hasType_ptr_inv hU hz with rfl | ⟨c, u, rfl, hu⟩ <;>
+        first | rfl | (simp at h1; done) | (simp at h2; done) | skip
+      exact (ih v (by simp <;> omega)).val R w u hv hw hu h1 h2
+    | slice E =>
+      rw [structEq_slice hU] at h1 h2 ⊢
+      rcases hasType_slice_inv hU hx with rfl | ⟨a, sp, xs, rfl, hxs⟩ <;>
+        rcases hasType_slice_inv hU hy with rfl | ⟨b, sp', ys, rfl, hys⟩ <;>
+        rcases hasType_slice_inv hU hz with rfl | ⟨c, sp'', zs, rfl, hzs⟩ <;>
+        first | rfl | (simp at h1; done) | (simp at h2; done) | skip
+      exact (ih xs (by simp <;> omega)).seq E ys zs hxs hys hzs h1 h2
+    | array n E =>
+      rw [structEq_array hU] at h1 h2 ⊢
+      obtain ⟨xs, rfl, -, hxs⟩ := hasType_array_inv hU hx
+      obtain ⟨ys, rfl, -, hys⟩ := hasType_array_inv hU hy
+      obtain ⟨zs, rfl, -, hzs⟩ := hasType_array_inv hU hz
+      exact (ih xs (by simp <;> omega)).seq E ys zs hxs hys hzs h1 h2
+    | struct fs =>
+      rw [structEq_struct hU] at h1 h2 ⊢
+      obtain ⟨xs, rfl, hxs⟩ := hasType_struct_inv hU hx
+      obtain ⟨ys, rfl, hys⟩ := hasType_struct_inv hU hy
+      obtain ⟨zs, rfl, hzs⟩ := hasType_struct_inv hU hz
+      exact (ih xs (by simp <;> omega)).flds fs ys zs hxs hys hzs h1 h2
+    | map K V =>
+      rw [structEq_map hU] at h1 h2 ⊢
+      rcases hasType_map_inv hU hx with rfl | ⟨a, xs, rfl, -, hxs, -⟩ <;>
+        rcases hasType_map_inv hU hy with rfl | ⟨b, ys, rfl, -, hys, -⟩ <;>
+        rcases hasType_map_inv hU hz with rfl | ⟨c, zs, rfl, -, hzs, -⟩ <;>
+        first | rfl | (simp at h1; done) | (simp at h2; done) | skip
+      simp only [Bool.and_eq_true, beq_iff_eq] at h1 h2 ⊢
+      refine ⟨h1.1.trans h2.1, ?_⟩
+      have hsx := entriesHaveType_isEntrySpine xs hxs
+      have hsy := entriesHaveType_isEntrySpine ys hys
+      have hsz := entriesHaveType_isEntrySpine zs hzs
+      rw [entriesIn_iff xs hsx]
+      intro k v hm
+      obtain ⟨k', w, hm', e1, e2⟩ := (valueAt_iff ys hsy).mp ((entriesIn_iff xs hsx).mp h1.2 k v hm)
+      obtain ⟨k'', u, hm'', e1', e2'⟩ :=
+        (valueAt_iff zs hsz).mp ((entriesIn_iff ys hsy).mp h2.2 k' w hm')
+      rw [valueAt_iff zs hsz]
+      have hsize := sizeOf_lt_of_mem_toList xs hm
+      have ht := entriesHaveType_mem xs hxs hm
+      have ht' := entriesHaveType_mem ys hys hm'
+      have ht'' := entriesHaveType_mem zs hzs hm''
+      have hk : sizeOf k < sizeOf (Val.map a xs) := by simp at hsize ⊢; omega
+      have hv : sizeOf v < sizeOf (Val.map a xs) := by simp at hsize ⊢; omega
+      exact ⟨k'', u, hm'', (ih k hk).val K k' k'' ht.1 ht'.1 ht''.1 e1 e1',
+        (ih v hv).val V w u ht.2 ht'.2 ht''.2 e2 e2'⟩
+    | _ => rw [hasType_bad (by rw [hU])] at hx; cases hx
+  · intro E ys zs hx hy hz h1 h2
+    rcases allHaveType_inv hx with rfl | ⟨a, r, rfl, ha, hr⟩ <;>
+      rcases allHaveType_inv hy with rfl | ⟨b, s, rfl, hb, hs⟩ <;>
+      rcases allHaveType_inv hz with rfl | ⟨c, t, rfl, hc, ht⟩ <;>
+      first | (rw [seqEq]; done) | (simp [seqEq] at h1; done) | (simp [seqEq] at h2; done) | skip
+    simp only [seqEq, Bool.and_eq_true] at h1 h2 ⊢
+    exact ⟨(ih a (by simp <;> omega)).val E b c ha hb hc h1.1 h2.1,
+      (ih r (by simp <;> omega)).seq E s t hr hs ht h1.2 h2.2⟩
+  · intro fs ys zs hx hy hz h1 h2
+    rcases fieldsHaveType_inv hx with ⟨rfl, rfl⟩ | ⟨F, rest, a, r, rfl, rfl, ha, hr⟩
+    · rcases fieldsHaveType_inv hz with ⟨-, rfl⟩ | ⟨_, _, _, _, h, _⟩
+      · rw [fieldsEq]
+      · cases h
+    · rcases fieldsHaveType_inv hy with ⟨h, -⟩ | ⟨F', rest', b, s, h, rfl, hb, hs⟩
+      · cases h
+      · cases h
+        rcases fieldsHaveType_inv hz with ⟨h, -⟩ | ⟨F', rest', c, t, h, rfl, hc, ht⟩
+        · cases h
+        · cases h
+          simp only [fieldsEq, Bool.and_eq_true] at h1 h2 ⊢
+          exact ⟨(ih a (by simp <;> omega)).val F b c ha hb hc h1.1 h2.1,
+            (ih r (by simp <;> omega)).flds rest s t hr hs ht h1.2 h2.2⟩
+
+end SpecEquiv
+
+/-! ## Identity-insensitivity: addresses and spare capacity do not matter -/
+
+/-- forget every heap identity: all addresses and all spare capacities become `0` -/
+def eraseIds : Val → Val
+  | .ptr _ v => .ptr 0 (eraseIds v)
+  | .slice _ _ es => .slice 0 0 (eraseIds es)
+  | .arr es => .arr (eraseIds es)
+  | .struct fs => .struct (eraseIds fs)
+  | .map _ es => .map 0 (eraseIds es)
+  | .pair k v => .pair (eraseIds k) (eraseIds v)
+  | .scons h t => .scons (eraseIds h) (eraseIds t)
+  | v => v
+
+section Erase
+open Spec
+
+theorem leafEq_eraseIds (x y : Val) : leafEq (eraseIds x) (eraseIds y) = leafEq x y := by
+  cases x <;> cases y <;> rfl
+
+theorem valueAt_eraseIds {env : Env} {K V : Ty} {k v : Val}
+    (hk : ∀ T y, structEq env T (eraseIds k) (eraseIds y) = structEq env T k y)
+    (hv : ∀ T y, structEq env T (eraseIds v) (eraseIds y) = structEq env T v y) :
+    ∀ ys, valueAt env K V (eraseIds k) (eraseIds v) (eraseIds ys) = valueAt env K V k v ys := by
+  intro ys
+  induction ys with
+  | scons hd tl _ ih =>
+    cases hd with
+    | pair k' w =>
+      simp only [eraseIds]
+      rw [valueAt.eq_1, valueAt.eq_1, hk, hv, ih]
+    | _ => rw [valueAt.eq_def, valueAt.eq_def]; simp only [eraseIds]
+  | _ => rw [valueAt.eq_def, valueAt.eq_def]; simp only [eraseIds]
+
+structure EraseOK (env : Env) (x : Val) : Prop where
+  val : ∀ T y, structEq env T (eraseIds x) (eraseIds y) = structEq env T x y
+  seq : ∀ E ys, seqEq env E (eraseIds x) (eraseIds ys) = seqEq env E x ys
+  flds : ∀ fs ys, fieldsEq env fs (eraseIds x) (eraseIds ys) = fieldsEq env fs x ys
+  ents : ∀ K V ys, entriesIn env K V (eraseIds x) (eraseIds ys) = entriesIn env K V x ys
+
+theorem slen_eraseIds (x : Val) : (eraseIds x).slen = x.slen := by
+  induction x with
+  | scons hd tl _ ih => simp only [eraseIds, Val.slen, ih]
+  | _ => rfl
+
+theorem eraseOK {env : Env} (x : Val) : EraseOK env x := by
+  induction x using Val.strongInduction with
+  | step x ih =>
+  refine ⟨?_, ?_, ?_, ?_⟩
+  · intro T y
+    cases hU : env.under T with
+    | basic b => rw [structEq_basic hU, structEq_basic hU, leafEq_eraseIds]
+    | ptr R =>
+      rw [structEq_ptr hU, structEq_ptr hU]
+      cases x with
+      | ptr a v =>
+        cases y with
+        | ptr b w => exact (ih v (by simp <;> omega)).val R w
+        | _ => rfl
+      | _ => cases y <;> rfl
+    | slice E =>
+      rw [structEq_slice hU, structEq_slice hU]
+      cases x with
+      | slice a sp xs =>
+        cases y with
+        | slice b sp' ys => exact (ih xs (by simp <;> omega)).seq E ys
+        | _ => rfl
+      | _ => cases y <;> rfl
+    | array n E =>
+      rw [structEq_array hU, structEq_array hU]
+      cases x with
+      | arr xs =>
+        cases y with
+        | arr ys => exact (ih xs (by simp <;> omega)).seq E ys
+        | _ => rfl
+      | _ => cases y <;> rfl
+    | struct fs =>
+      rw [structEq_struct hU, structEq_struct hU]
+      cases x with
+      | struct xs =>
+        cases y with
+        | struct ys => exact (ih xs (by simp <;> omega)).flds fs ys
+        | _ => rfl
+      | _ => cases y <;> rfl
+    | map K V =>
+      rw [structEq_map hU, structEq_map hU]
+      cases x with
+      | map a xs =>
+        cases y with
+        | map b ys =>
+          simp only [eraseIds]
+          rw [slen_eraseIds, slen_eraseIds, (ih xs (by simp <;> omega)).ents K V ys]
+        | _ => rfl
+      | _ => cases y <;> rfl
+    | _ => rw [structEq.eq_def, structEq.eq_def, hU]
+  · intro E ys
+    rw [seqEq.eq_def, seqEq.eq_def]
+    cases x with
+    | scons a r =>
+      cases ys with
+      | scons b s =>
+        simp only [eraseIds]
+        rw [(ih a (by simp <;> omega)).val E b, (ih r (by simp <;> omega)).seq E s]
+      | _ => rfl
+    | _ => cases ys <;> rfl
+  · intro fs ys
+    rw [fieldsEq.eq_def, fieldsEq.eq_def]
+    cases x with
+    | scons a r =>
+      cases ys with
+      | scons b s =>
+        cases fs with
+        | fcons F rest =>
+          simp only [eraseIds]
+          rw [(ih a (by simp <;> omega)).val F b, (ih r (by simp <;> omega)).flds rest s]
+        | _ => rfl
+      | _ => cases fs <;> rfl
+    | _ => cases fs <;> cases ys <;> rfl
+  · intro K V ys
+    rw [entriesIn.eq_def, entriesIn.eq_def]
+    cases x with
+    | scons hd r =>
+      cases hd with
+      | pair k v =>
+        simp only [eraseIds]
+        rw [valueAt_eraseIds (ih k (by simp <;> omega)).val (ih v (by simp <;> omega)).val ys,
+          (ih r (by simp <;> omega)).ents K V ys]
+      | _ => rfl
+    | _ => rfl
+
+theorem structEq_eraseIds' (env : Env) (T : Ty) (x y : Val) :
+    structEq env T (eraseIds x) (eraseIds y) = structEq env T x y := (eraseOK x).val T y
+
+theorem goEq_eraseIds (x y : Val) : goEq (eraseIds x) (eraseIds y) = goEq x y := by
+  induction x generalizing y with
+  | arr xs ih => cases y <;> first | rfl | (simp only [eraseIds, goEq]; exact ih _)
+  | struct xs ih => cases y <;> first | rfl | (simp only [eraseIds, goEq]; exact ih _)
+  | scons a r iha ihr => cases y <;> first | rfl | (simp only [eraseIds, goEq]; rw [iha, ihr])
+  | _ => cases y <;> rfl
+
+theorem keyFresh_eraseIds (k : Val) : ∀ s, keyFresh (eraseIds k) (eraseIds s) = keyFresh k s := by
+  intro s
+  induction s with
+  | scons hd tl _ ih =>
+    cases hd with
+    | pair k' w => simp only [eraseIds, keyFresh, goEq_eraseIds, ih]
+    | _ => rfl
+  | _ => rfl
+
+theorem keysDistinct_eraseIds : ∀ s, keysDistinct (eraseIds s) = keysDistinct s := by
+  intro s
+  induction s with
+  | scons hd tl _ ih =>
+    cases hd with
+    | pair k' w => simp only [eraseIds, keysDistinct, keyFresh_eraseIds, ih]
+    | _ => rfl
+  | _ => rfl
+
+theorem basicHasType_eraseIds (b : Basic) (x : Val) :
+    basicHasType b (eraseIds x) = basicHasType b x := by
+  cases x <;> cases b <;> rfl
+
+structure EraseTyOK (env : Env) (x : Val) : Prop where
+  val : ∀ T, hasType env T (eraseIds x) = hasType env T x
+  seq : ∀ E, allHaveType env E (eraseIds x) = allHaveType env E x
+  flds : ∀ fs, fieldsHaveType env fs (eraseIds x) = fieldsHaveType env fs x
+  ents : ∀ K V, entriesHaveType env K V (eraseIds x) = entriesHaveType env K V x
+
+theorem eraseTyOK {env : Env} (x : Val) : EraseTyOK env x := by
+  induction x using Val.strongInduction with
+  | step x ih =>
+  refine ⟨?_, ?_, ?_, ?_⟩
+  · intro T
+    rw [hasType.eq_def, hasType.eq_def]
+    cases hU : env.under T with
+    | basic b => exact basicHasType_eraseIds b x
+    | ptr R =>
+      cases x with
+      | ptr a v => exact (ih v (by simp <;> omega)).val R
+      | _ => rfl
+    | slice E =>
+      cases x with
+      | slice a sp xs => exact (ih xs (by simp <;> omega)).seq E
+      | _ => rfl
+    | array n E =>
+      cases x with
+      | arr xs =>
+        simp only [eraseIds]
+        rw [slen_eraseIds, (ih xs (by simp <;> omega)).seq E]
+      | _ => rfl
+    | struct fs =>
+      cases x with
+      | struct xs => exact (ih xs (by simp <;> omega)).flds fs
+      | _ => rfl
+    | map K V =>
+      cases x with
+      | map a xs =>
+        simp only [eraseIds]
+        rw [keysDistinct_eraseIds, (ih xs (by simp <;> omega)).ents K V]
+      | _ => rfl
+    | _ => rfl
+  · intro E
+    rw [allHaveType.eq_def, allHaveType.eq_def]
+    cases x with
+    | scons a r =>
+      simp only [eraseIds]
+      rw [(ih a (by simp <;> omega)).val E, (ih r (by simp <;> omega)).seq E]
+    | _ => rfl
+  · intro fs
+    rw [fieldsHaveType.eq_def, fieldsHaveType.eq_def]
+    cases x with
+    | scons a r =>
+      cases fs with
+      | fcons F rest =>
+        simp only [eraseIds]
+        rw [(ih a (by simp <;> omega)).val F, (ih r (by simp <;> omega)).flds rest]
+      | _ => rfl
+    | _ => cases fs <;> rfl
+  · intro K V
+    rw [entriesHaveType.eq_def, entriesHaveType.eq_def]
+    cases x with
+    | scons hd r =>
+      cases hd with
+      | pair k v =>
+        simp only [eraseIds]
+        rw [(ih k (by simp <;> omega)).val K, (ih v (by simp <;> omega)).val V,
+          (ih r (by simp <;> omega)).ents K V]
+      | _ => rfl
+    | _ => rfl
+
+theorem hasType_eraseIds (env : Env) (T : Ty) (x : Val) :
+    hasType env T (eraseIds x) = hasType env T x := (eraseTyOK x).val T
+
+theorem nanFree_eraseIds (x : Val) : nanFree (eraseIds x) = nanFree x := by
+  induction x <;> simp_all [eraseIds, nanFree]
+
+end Erase
+
+/-! ## Insertion-order insensitivity -/
+
+section Perm
+open Spec
+
+theorem valueAt_perm {env : Env} {K V : Ty} {k v es es' : Val}
+    (hs : es.isEntrySpine = true) (hs' : es'.isEntrySpine = true)
+    (hp : es.toList.Perm es'.toList) :
+    valueAt env K V k v es = valueAt env K V k v es' := by
+  rw [Bool.eq_iff_iff, valueAt_iff es hs, valueAt_iff es' hs']
+  constructor
+  · rintro ⟨k', w, hm, h⟩; exact ⟨k', w, hp.mem_iff.mp hm, h⟩
+  · rintro ⟨k', w, hm, h⟩; exact ⟨k', w, hp.mem_iff.mpr hm, h⟩
+
+theorem entriesIn_perm_left {env : Env} {K V : Ty} {es es' ys : Val}
+    (hs : es.isEntrySpine = true) (hs' : es'.isEntrySpine = true)
+    (hp : es.toList.Perm es'.toList) :
+    entriesIn env K V es ys = entriesIn env K V es' ys := by
+  rw [Bool.eq_iff_iff, entriesIn_iff es hs, entriesIn_iff es' hs']
+  constructor
+  · intro h k v hm; exact h k v (hp.mem_iff.mpr hm)
+  · intro h k v hm; exact h k v (hp.mem_iff.mp hm)
+
+theorem entriesIn_perm_right {env : Env} {K V : Ty} {es es' : Val}
+    (hs : es.isEntrySpine = true) (hs' : es'.isEntrySpine = true)
+    (hp : es.toList.Perm es'.toList) :
+    ∀ ys, entriesIn env K V ys es = entriesIn env K V ys es' := by
+  intro ys
+  induction ys with
+  | scons hd tl _ ih =>
+    cases hd with
+    | pair k v => rw [entriesIn, entriesIn, valueAt_perm hs hs' hp, ih]
+    | _ => rw [entriesIn.eq_def, entriesIn.eq_def]
+  | _ => rw [entriesIn.eq_def, entriesIn.eq_def]
+
+theorem hasType_map_under {env : Env} {T : Ty} {a : Nat} {es : Val}
+    (h : hasType env T (.map a es) = true) :
+    ∃ K V, env.under T = .map K V ∧ entriesHaveType env K V es = true := by
+  rw [hasType.eq_def] at h
+  cases hU : env.under T with
+  | map K V =>
+    rw [hU] at h
+    simp only [Bool.and_eq_true] at h
+    exact ⟨K, V, rfl, h.1.2⟩
+  | basic b => rw [hU] at h; cases b <;> simp [basicHasType] at h
+  | _ => rw [hU] at h; simp at h
+
+theorem structEq_map_perm_left' {env : Env} {T : Ty} {a a' : Nat} {es es' : Val} (y : Val)
+    (h1 : hasType env T (.map a es) = true) (h2 : hasType env T (.map a' es') = true)
+    (hp : es.toList.Perm es'.toList) :
+    structEq env T (.map a es) y = structEq env T (.map a' es') y := by
+  obtain ⟨K, V, hU, he⟩ := hasType_map_under h1
+  obtain ⟨K', V', hU', he'⟩ := hasType_map_under h2
+  rw [hU] at hU'; cases hU'
+  have hs := entriesHaveType_isEntrySpine es he
+  have hs' := entriesHaveType_isEntrySpine es' he'
+  rw [structEq_map hU, structEq_map hU]
+  cases y with
+  | map b ys =>
+    simp only
+    rw [entriesIn_perm_left hs hs' hp, Val.slen_eq_length es, Val.slen_eq_length es', hp.length_eq]
+  | _ => rfl
+
+theorem structEq_map_perm_right' {env : Env} {T : Ty} {a a' : Nat} {es es' : Val} (y : Val)
+    (h1 : hasType env T (.map a es) = true) (h2 : hasType env T (.map a' es') = true)
+    (hp : es.toList.Perm es'.toList) :
+    structEq env T y (.map a es) = structEq env T y (.map a' es') := by
+  obtain ⟨K, V, hU, he⟩ := hasType_map_under h1
+  obtain ⟨K', V', hU', he'⟩ := hasType_map_under h2
+  rw [hU] at hU'; cases hU'
+  have hs := entriesHaveType_isEntrySpine es he
+  have hs' := entriesHaveType_isEntrySpine es' he'
+  rw [structEq_map hU, structEq_map hU]
+  cases y with
+  | map b ys =>
+    simp only
+    rw [entriesIn_perm_right hs hs' hp, Val.slen_eq_length es, Val.slen_eq_length es', hp.length_eq]
+  | _ => rfl
+
+end Perm
 
 /-! ## Evaluation lemmas (for concrete examples: the functions are defined by well-founded
 recursion, so `decide` cannot run them; `simp [hasType_eval…]` can) -/
